@@ -39,15 +39,16 @@ Proof. reflexivity. Qed.
 Lemma get_ref_key t p n v sv k : ref_shape t = true -> abs_f n t p v = Some sv -> key_of sv = Some k -> get_ref REF_FUEL t v = Ok k.
 Proof.
   intros Hs Ha Hk. destruct t as [| | | | | | | | |fs]; try discriminate.
-  - destruct n; [discriminate|]. destruct v; cbn [abs_f] in Ha; try discriminate. injection Ha as <-. cbn in Hk. injection Hk as ->. reflexivity.
-  - destruct fs as [|[[nm p'] t'] [|? ?]]; try discriminate. destruct t'; try discriminate. cbn [ref_shape] in Hs.
-    destruct n as [|n]; [discriminate|]. destruct v as [| | | | | |vs| |]; cbn [abs_f] in Ha; try discriminate.
-    destruct vs as [|x [|? ?]]; cbn [length Nat.eqb negb] in Ha; try discriminate.
+  - destruct n; [discriminate|]. destruct v; cbn [abs_f] in Ha; try discriminate. injection Ha as <-. cbn [key_of] in Hk. injection Hk as ->. reflexivity.
+  - destruct fs as [|[[nm p'] t'] tl]; [discriminate|]. destruct t'; try discriminate. destruct tl; [|discriminate]. cbn [ref_shape] in Hs.
     assert (Ech : is_choice [(nm, p', TInt)] = false).
     { unfold is_choice, f_name. cbn [fst]. destruct (String.eqb nm "Present"); [discriminate|reflexivity]. }
-    rewrite Ech in Ha. cbn [combine map all_some f_ty f_params fst snd] in Ha.
+    destruct n as [|n]; [discriminate|]. destruct v as [| | | | | |vs| |]; try (cbn [abs_f] in Ha; discriminate).
+    destruct vs as [|x [|? ?]]; try (cbn [abs_f length Nat.eqb negb] in Ha; discriminate).
+    rewrite abs_f_seq in Ha by (try exact Ech; reflexivity).
+    cbn [combine map all_some habs f_ty f_params fst snd] in Ha.
     destruct n as [|n]; [discriminate|]. destruct x; cbn [abs_f] in Ha; try discriminate. injection Ha as <-.
-    cbn in Hk. injection Hk as ->. unfold REF_FUEL. cbn [get_ref f_name fst]. 
+    cbn [key_of] in Hk. injection Hk as ->. unfold REF_FUEL. cbn [get_ref]. unfold f_name. cbn [fst].
     destruct (String.eqb nm "Present"); [discriminate|]. reflexivity.
 Qed.
 
